@@ -56,12 +56,29 @@ def rule_y1(chk: Check, ix: Index):
 
 
 def _args_layout(fn: ast.FunctionDef) -> Optional[list[str]]:
-    """The concatenated `args` tuple of an error constructor function."""
+    """The elements of the second argument of the error constructor: a tuple display, or a local built up from tuple displays
+    by `=` and `+=`."""
+    calls = [n for n in ast.walk(fn) if isinstance(n, ast.Call) and norm_stmt(n.func) in ERR_CLASSES and len(n.args) == 2]
+    if len(calls) != 1:
+        return None
+    a = calls[0].args[1]
+    if isinstance(a, ast.Tuple):
+        return [norm_stmt(e) for e in a.elts]
+    if not isinstance(a, ast.Name):
+        return None
     elems: list[str] = []
     for st in fn.body:
-        if isinstance(st, ast.Assign) and norm_stmt(st.targets[0]) == "args" and isinstance(st.value, ast.Tuple):
-            elems = [norm_stmt(e) for e in st.value.elts]
-        elif isinstance(st, ast.AugAssign) and norm_stmt(st.target) == "args" and isinstance(st.value, ast.Tuple) \
+        if isinstance(st, ast.Assign) and norm_stmt(st.targets[0]) == a.id:
+            v = st.value
+            parts = []
+            while isinstance(v, ast.BinOp) and isinstance(v.op, ast.Add):
+                parts.insert(0, v.right)
+                v = v.left
+            parts.insert(0, v)
+            if not all(isinstance(x, ast.Tuple) for x in parts):
+                return None
+            elems = [norm_stmt(e) for x in parts for e in x.elts]
+        elif isinstance(st, ast.AugAssign) and norm_stmt(st.target) == a.id and isinstance(st.value, ast.Tuple) \
                 and isinstance(st.op, ast.Add):
             elems += [norm_stmt(e) for e in st.value.elts]
     return elems or None
@@ -93,7 +110,7 @@ def rule_y2(chk: Check, ix: Index):
         # the constructed exception receives (message, args)
         calls = [n for n in own_nodes(f.node) if isinstance(n, ast.Call) and norm_stmt(n.func) in ERR_CLASSES]
         chk.count("Y2-args-layout")
-        chk.require(len(calls) == 1 and len(calls[0].args) == 2 and norm_stmt(calls[0].args[1]) == "args",
+        chk.require(len(calls) == 1 and len(calls[0].args) == 2 and not calls[0].keywords,
                     "Y2-args-layout", f"{q}:ctor", f.where, "the error must be built as Error(message, args)")
 
 
